@@ -121,6 +121,15 @@ class Session:
         if "reclimit" in env:
             sys.setrecursionlimit(max(1000, int(env["reclimit"])))
             self.env["reclimit"] = max(1000, int(env["reclimit"]))
+        if env.get("json") == "stdlib":
+            # the installation without the optional `orjson` extra: the library's JSON module is the stdlib's
+            import json as _stdjson
+
+            from typelib.py import compat
+
+            compat.json = _stdjson
+            self.env["json"] = "stdlib"
+            self.faults["stdlib_json_configuration"] += 1
         if "warnings" in env:
             # the process-wide warnings filter (python -W error / PYTHONWARNINGS / pytest filterwarnings)
             import warnings
